@@ -57,7 +57,7 @@ Theorem bounds_implicit d :
     match fl (d_fields d) with
     | f :: _ => if contains_generics (d_params d) (fty f) then [BTy (ftid f) (d_trait d)] else []
     | [] => []
-    end.
+    end ++ map BUser (d_user_bounds d).
 Proof.
   intros Hp Ha. unfold d_generate_bounds. rewrite (shared_info_plain cc d Hp), Ha.
   cbn. rewrite app_nil_r. reflexivity.
